@@ -165,11 +165,22 @@ func (fr *oFrame) builtinCall(call *ast.CallExpr) (oval, bool) {
 		return oSlice{typ: s.typ, arr: &arr, lo: 0, hi: n, capEnd: n}, true
 	case "panic":
 		msg := "panic"
+		var pv oval = oIface{opaque: &oOpaque{name: "panic value"}}
 		if len(call.Args) == 1 {
 			msg = src(call.Args[0])
+			pv = fr.toIface(fr.eval(call.Args[0]))
+		}
+		if !fr.it.panicActive {
+			fr.it.panicActive, fr.it.panicVal = true, pv
 		}
 		fr.abort("panic: %s at %s", msg, fr.it.p.Position(call.Pos()))
 		return oTop{"panic"}, true
+	case "recover":
+		if fr.it.panicActive {
+			fr.it.panicActive = false
+			return fr.it.panicVal, true
+		}
+		return oNil{}, true
 	case "copy":
 		d, ok1 := fr.eval(call.Args[0]).(oSlice)
 		sv := fr.eval(call.Args[1])
